@@ -269,6 +269,92 @@ def run_real(src, func_name, items, cfg=None):
     return {'out': out}, calls
 
 
+IMPL_EXPRS = [('who', 'W&amp;ho', True), ('n', '3', True), ('who.upper()', 'W&amp;HO', False), ('n + 1', '4', False), (' who ', 'W&amp;ho', False),
+              ('n-n', '0', True), ('who | n', 'W&amp;ho', False)]
+
+
+def implicit_case(rng):
+    """implicit translation of interpolated text and attributes: translated (message id with ${name} placeholders, mapping of the
+    converted values) iff every ${...} of the run is a simple name and the run is more than a lone expression"""
+    def run():
+        pieces = []
+        for _ in range(rng.randint(1, 4)):
+            if rng.random() < 0.55:
+                pieces.append(('e',) + rng.choice(IMPL_EXPRS))
+            else:
+                pieces.append(('t', rng.choice(['Hello ', ' and ', 'x', ' - ', '  two  words ', '$$', '.'])))
+        # merge adjacent literals (they are one constant for the Interpolator)
+        merged = []
+        for pc in pieces:
+            if pc[0] == 't' and merged and merged[-1][0] == 't':
+                merged[-1] = ('t', merged[-1][1] + pc[1])
+            else:
+                merged.append(pc)
+        return merged
+
+    def render(merged, on, calls, st, attr=False):
+        src = ''.join('${%s}' % pc[1] if pc[0] == 'e' else pc[1] for pc in merged)
+        exprs = [pc for pc in merged if pc[0] == 'e']
+        if not exprs:
+            # "$$" is not collapsed in an attribute value without ${...} (known finding D-06a, judged under C06)
+            text = src if attr else src.replace('$$', '$')
+            return src, text, 'plain'
+        if on and all(pc[3] for pc in exprs) and len(merged) >= 2:
+            msgid = ''.join('${%s}' % pc[1] if pc[0] == 'e' else pc[1].replace('$$', '$') for pc in merged)
+            mapping = {}
+            for pc in exprs:
+                mapping[pc[1]] = pc[2]
+            calls.append({'msgid': msgid, 'mapping': mapping, 'default': None, 'domain': st, 'context': None, 'target': None})
+            return src, '[%s|%s]' % (msgid, ','.join('%s=%s' % kv for kv in sorted(mapping.items()))), 'translated'
+        return src, ''.join(pc[2] if pc[0] == 'e' else pc[1].replace('$$', '$') for pc in merged), 'untranslated'
+    tr_text = rng.random() < 0.7
+    tr_attr = rng.random() < 0.7
+    dom = rng.choice([None, 'dd'])
+    calls = []
+    # attribute first (attributes are evaluated before the content)
+    a_run = run()
+    a_src, a_out, a_kind = render(a_run, tr_attr, calls, dom, attr=True)
+    if a_kind == 'plain':
+        if tr_attr and a_out:
+            calls.append({'msgid': a_out, 'mapping': None, 'default': a_out, 'domain': dom, 'context': None, 'target': None})
+            a_out = '[%s|]' % a_out
+    t_run = run()
+    t_src, t_out, t_kind = render(t_run, tr_text, calls, dom)
+    if t_kind == 'plain' and tr_text:
+        m = re.search(r'(\s*)(.*\S)(\s*)', t_out, flags=re.DOTALL)
+        if m is not None:
+            norm = re.sub(r'\s+', ' ', m.group(2))
+            calls.append({'msgid': norm, 'mapping': None, 'default': norm, 'domain': dom, 'context': None, 'target': None})
+            t_out = m.group(1) + '[%s|]' % norm + m.group(3)
+    src = '<p%s title="%s">%s</p>' % (' i18n:domain="dd"' if dom else '', a_src, t_src)
+    exp = '<p title="%s">%s</p>' % (a_out, t_out)
+    cfg = {'implicit_i18n_translate': tr_text}
+    if tr_attr:
+        cfg['implicit_i18n_attributes'] = ['title']
+    nontrivial = 'translated' in (a_kind, t_kind) or (len([p for p in a_run + t_run if p[0] == 'e']) >= 2)
+    return src, cfg, exp, calls, nontrivial
+
+
+def run_implicit(src, cfg):
+    from chameleon import PageTemplate
+    calls = []
+
+    def translate(msgid, domain=None, mapping=None, context=None, target_language=None, default=None):
+        if not isinstance(msgid, str):
+            return msgid
+        calls.append({'msgid': str(msgid), 'mapping': None if mapping is None else {k: str(v) for k, v in mapping.items()},
+                      'default': None if default is None else str(default), 'domain': domain, 'context': context, 'target': target_language})
+        return '[%s|%s]' % (msgid, ','.join('%s=%s' % kv for kv in sorted((mapping or {}).items())))
+    c = dict(cfg)
+    if 'implicit_i18n_attributes' in c:
+        c['implicit_i18n_attributes'] = set(c['implicit_i18n_attributes'])
+    try:
+        out = PageTemplate(src, translate=translate, **c)(who='W&ho', n=3)
+    except Exception as e:
+        return {'exc': type(e).__name__, 'msg': str(e).split('\n')[0][:100]}, calls
+    return {'out': out}, calls
+
+
 def make(rng):
     g = Gen(rng)
     src, node = g.element({}, rng.choice([1, 2]))
@@ -290,6 +376,9 @@ def correspondence(ctx):
             cfg['implicit_i18n_attributes'] = ['title']
         cases.append({'src': src, 'vars': [['yes', True], ['no', False], ['items', {'list': items}], ['who', {'str': 'W&ho'}]], 'objs': [],
                       'translate': 'record', 'cfg': cfg})
+    for _ in range(ctx.budget(300, 8000)):
+        src, cfg, exp, calls, _ = implicit_case(ctx.rng)
+        cases.append({'src': src, 'vars': [['who', {'str': 'W&ho'}], ['n', 3]], 'objs': [], 'translate': 'record', 'cfg': cfg})
     pipeline.run_cases(ctx, cases, what='i18n', with_tlog=True)
 
 
@@ -313,6 +402,19 @@ def oracle(ctx):
             continue
         if real.get('out') != exp_out:
             ctx.violation('what the translation function returns is not what appears in the output', inp, expected=exp_out, actual=real)
+    # implicit translation of interpolated text / attributes
+    for _ in range(ctx.budget(600, 20000)):
+        src, cfg, exp, calls, nontriv = implicit_case(ctx.rng)
+        real, rcalls = run_implicit(src, cfg)
+        ctx.count('evaluations')
+        nt += 1 if nontriv else 0
+        inp = {'src': src, 'cfg': cfg, 'implicit': True}
+        if rcalls != calls:
+            ctx.violation('implicit translation: a text or attribute is translated (message id with ${name} placeholders, mapping) iff all of '
+                          'its ${...} are simple names and it is more than a lone expression', inp, expected=calls, actual=rcalls)
+        elif real.get('out') != exp:
+            ctx.violation('implicit translation: what the translation function returns is not what appears in the output', inp,
+                          expected=exp, actual=real)
     # inserted values that are not str / number / __html__ are offered to the translation function
     from chameleon import PageTemplate
 
@@ -365,5 +467,10 @@ def replay(ctx, case):
     c = v['input']
     if 'function' in c:
         real, calls = run_real(c['src'], c['function'], c.get('items', []))
+        return {'real': real, 'calls': calls}
+    if c.get('implicit'):
+        real, calls = run_implicit(c['src'], c['cfg'])
+        if v.get('expected') is not None and calls != v['expected'] and real.get('out') != v['expected']:
+            ctx.violation('implicit translation', c, expected=v['expected'], actual={'real': real, 'calls': calls})
         return {'real': real, 'calls': calls}
     return {'case': c}
